@@ -309,3 +309,57 @@ M("c03-period-no-timezone", "C03", "C03/DISPATCH",
 M("c03-twin-local-rename", "C03", "silent",
   (PR, "        u = ical.upper()\n        if u.startswith(('P', '-P', '+P')):\n            return vDuration.from_ical(ical)\n        if '/' in u:",
        "        upper = ical.upper()\n        if upper.startswith(('P', '-P', '+P')):\n            return vDuration.from_ical(ical)\n        if '/' in upper:"))
+
+# ---------------------------------------------------------------- C15
+M("c15-gt-to-ge-active", "C15", "C15/DT-ACTIVE",
+  (A, "        return trigger > acknowledged", "        return trigger >= acknowledged"))
+M("c15-snooze-ge", "C15", "C15/DT-ACTIVE",
+  (A, "        if self._snooze_until is not None and self._snooze_until > acknowledged:", "        if self._snooze_until is not None and self._snooze_until >= acknowledged:"))
+M("c15-max-to-min", "C15", "C15/DT-ACTIVE",
+  (A, "        return max(ack, self._last_ack)", "        return min(ack, self._last_ack)"))
+M("c15-ack-ignores-component", "C15", "C15/DT-ACTIVE",
+  (A, "        if ack is None:\n            return self._last_ack\n", "        if ack is None:\n            return None\n"))
+M("c15-drop-snooze-branch", "C15", "C15/DT-ACTIVE",
+  (A, "        if self._snooze_until is not None and self._snooze_until > acknowledged:\n            return True\n", ""))
+M("c15-trigger-ignores-snooze", "C15", "C15/DT-ACTIVE",
+  (A, "            if self._snooze_until > self._trigger:\n                return self._snooze_until\n", ""))
+M("c15-revert-date-guard", "C15", "C15/DT-ACTIVE",
+  (A, '        if getattr(trigger, "tzinfo", None) is None:\n            raise LocalTimezoneMissing(\n                "A local timezone is required to check', '        if trigger.tzinfo is None:\n            raise LocalTimezoneMissing(\n                "A local timezone is required to check'))
+M("c15-revert-to-datetime", "C15", "C15/DT-ACTIVE",
+  (A, "normalize_pytz(to_datetime(trigger).replace(tzinfo=self._local_tzinfo))", "normalize_pytz(trigger.replace(tzinfo=self._local_tzinfo))"))
+M("c15-active-not-filtered", "C15", "C15/SUBLIST",
+  (A, "return [alarm_time for alarm_time in self.times if alarm_time.is_active()]", "return [alarm_time for alarm_time in self.times]"))
+M("c15-thunderbird-uses-dtstamp", "C15", "C15/WIRING",
+  (A, "                self.acknowledge_until(component.X_MOZ_LASTACK)", "                self.acknowledge_until(component.DTSTAMP)"))
+M("c15-ack-not-utc", "C15", "C15/WIRING",
+  (A, "        self._last_ack = tzp.localize_utc(dt) if dt is not None else None", "        self._last_ack = dt"))
+M("c15-twin-rename", "C15", "silent",
+  (A, "        acknowledged = self.acknowledged\n        if not acknowledged:", "        acknowledged = self.acknowledged\n        if acknowledged is None:"))
+
+# ---------------------------------------------------------------- C16
+M("c16-duration-keeps-dtend", "C16", "C16/MACHINE",
+  (C, '    self["duration"] = vDuration(value)\n    self.pop("DTEND")\n', '    self["duration"] = vDuration(value)\n'))
+M("c16-duration-keeps-due", "C16", "C16/MACHINE",
+  (C, '    self.pop("DTEND")\n    self.pop("DUE")\n', '    self.pop("DTEND")\n'))
+M("c16-exclusive-wrong-tuple", "C16", "C16/MACHINE",
+  (C, "    exclusive = ('DTEND', 'DURATION',)\n    multiple = (\n        'ATTACH', 'ATTENDEE', 'COMMENT', 'CONTACT', 'EXDATE',\n        'RSTATUS'", "    exclusive = ('DTEND',)\n    multiple = (\n        'ATTACH', 'ATTENDEE', 'COMMENT', 'CONTACT', 'EXDATE',\n        'RSTATUS'"))
+M("c16-store-before-typecheck", "C16", "C16/MACHINE",
+  (C, "        if not isinstance(value, value_type):\n            raise TypeError(f\"Use {' or '.join(t.__name__ for t in value_type)}, not {type(value).__name__}.\")\n        self[prop] = vProp(value)",
+      "        self[prop] = value\n        if not isinstance(value, value_type):\n            raise TypeError(f\"Use {' or '.join(t.__name__ for t in value_type)}, not {type(value).__name__}.\")\n        self[prop] = vProp(value)"))
+M("c16-one-day-zero", "C16", "C16/DT-END",
+  (C, "                return start + timedelta(days=1)\n            return start\n        if duration is not None:\n            if start is not None:\n                return start + duration\n            raise IncompleteComponent(\"No DTEND or DURATION+DTSTART given.\")",
+      "                return start + timedelta(days=0)\n            return start\n        if duration is not None:\n            if start is not None:\n                return start + duration\n            raise IncompleteComponent(\"No DTEND or DURATION+DTSTART given.\")"))
+M("c16-todo-swapped-date-branch", "C16", "C16/DT-END",
+  (C, "                raise IncompleteComponent(\"No DUE or DURATION+DTSTART given.\")\n            if is_date(start):\n                return start + timedelta(days=1)\n            return start",
+      "                raise IncompleteComponent(\"No DUE or DURATION+DTSTART given.\")\n            if not is_date(start):\n                return start + timedelta(days=1)\n            return start"))
+M("c16-both-allowed", "C16", "C16/DT-END",
+  (C, "        if duration is not None and end is not None:\n            raise InvalidCalendar(\"Only one of DTEND and DURATION may be in a VEVENT, not both.\")\n", ""))
+M("c16-mismatch-allowed", "C16", "C16/DT-END",
+  (C, "        if start is not None and end is not None and is_date(start) != is_date(end):\n            raise InvalidCalendar(\"DTSTART and DUE must be of the same type, either date or datetime.\")\n", ""))
+M("c16-duration-sign", "C16", "C16/DT-END",
+  (C, "        return self.end - self.start\n\n    X_MOZ_SNOOZE_TIME", "        return self.start - self.end\n\n    X_MOZ_SNOOZE_TIME"))
+M("c16-journal-end-none", "C16", "C16/DT-END",
+  (C, "        self.DTSTART = value\n\n    end = start\n", "        self.DTSTART = value\n\n    end = None\n"))
+M("c16-twin-is-date", "C16", "silent",
+  (C, "        if isinstance(start, date) and not isinstance(start, datetime) and duration is not None and duration.seconds != 0:\n            raise InvalidCalendar(\"When DTSTART is a date, DURATION must be of days or weeks.\")\n        if start is not None and end is not None and is_date(start) != is_date(end):\n            raise InvalidCalendar(\"DTSTART and DTEND",
+      "        if start is not None and is_date(start) and duration is not None and duration.seconds != 0:\n            raise InvalidCalendar(\"When DTSTART is a date, DURATION must be of days or weeks.\")\n        if start is not None and end is not None and is_date(start) != is_date(end):\n            raise InvalidCalendar(\"DTSTART and DTEND"))
